@@ -186,6 +186,45 @@ def run(pm, ctx):
         ctx.violation("C14-b", u.relpath, "add_mlcl_constraint.intercept_grads", "last_indices", "batch positions are not looked up in the recorded batch indices", line=ig.lineno,
                       site="intercept_grads: last_indices")
 
+    # ------------------------------------------------------------------ component search: every connected component is enumerated
+    ctx.rule("C14-d", "the contradiction check must look at every connected component of the must-link graph: each search starts from a node that no earlier "
+             "search has reached", floor=1)
+    sf = u.func("_check_structural_constraint")
+    site_d = "_check_structural_constraint: component search"
+    bfs = [n for n in ast.walk(sf) if isinstance(n, ast.Call) and (call_name(n) or "").endswith("breadth_first_order")]
+    loops_d = [n for n in ast.walk(sf) if isinstance(n, ast.While) and any(b_ in list(ast.walk(n)) for b_ in bfs)]
+    if len(bfs) != 1 or len(loops_d) != 1:
+        ctx.unrecognised("C14-d", site_d, "no single loop around one breadth-first search")
+    else:
+        lp_, call_ = loops_d[0], bfs[0]
+        start = call_.args[1] if len(call_.args) > 1 else next((k.value for k in call_.keywords if k.arg == "i_start"), None)
+        reach = next((s_.targets[0].id for s_ in lp_.body if isinstance(s_, ast.Assign) and s_.value is call_ and isinstance(s_.targets[0], ast.Name)), None)
+        verdict = None
+        if isinstance(start, ast.Subscript) and isinstance(start.value, ast.Name) and reach:
+            W = start.value.id
+            init = [s_ for s_ in sf.body if isinstance(s_, ast.Assign) and isinstance(s_.targets[0], ast.Name) and s_.targets[0].id == W]
+            full = bool(init) and norm_src(init[-1].value) in ("list(range(len(unique_indices)))", "list(range(len(connection_matrix)))", "list(range(connection_matrix.shape[0]))")
+            test_ok = norm_src(lp_.test) in (f"len({W}) != 0", f"0 != len({W})", W, f"0 < len({W})", f"len({W}) > 0")
+            removes = [n for n in ast.walk(lp_) if isinstance(n, ast.Call) and isinstance(n.func, ast.Attribute) and n.func.attr == "remove" and norm_src(n.func.value) == W]
+            rem_ok = any(isinstance(p_, ast.For) and norm_src(p_.iter) == reach and norm_src(p_.target) == norm_src(r_.args[0]) for r_ in removes for p_ in _parents_c14(r_))
+            if full and test_ok and rem_ok:
+                verdict = ("ok", f"worklist {W}: starts from its first element, every reached node is removed, loops until it is empty")
+            elif full and test_ok and not removes:
+                verdict = ("bad", f"the nodes reached by a search are never removed from {W}")
+        elif isinstance(start, ast.Name) and reach:
+            # a counter advanced by the size of each component: node number `counter` is unexplored only if the components are contiguous in node order
+            ups = [n for n in ast.walk(lp_) if isinstance(n, ast.AugAssign) and isinstance(n.target, ast.Name) and n.target.id == start.id and isinstance(n.op, ast.Add)
+                   and norm_src(n.value) in (f"len({reach})", f"{reach}.shape[0]", f"{reach}.size")]
+            if ups:
+                verdict = ("bad", f"each search starts at node number `{start.id}` = the number of nodes reached so far: that node may belong to a component that was "
+                                  "already explored (components are not contiguous in node order), and another component is then never enumerated")
+        if verdict is None:
+            ctx.unrecognised("C14-d", site_d, f"start node `{norm_src(start) if start is not None else '?'}`: neither the worklist idiom nor a recognised defect")
+        elif verdict[0] == "ok":
+            ctx.ok("C14-d", site_d, verdict[1])
+        else:
+            ctx.violation("C14-d", u.relpath, "_check_structural_constraint", norm_src(call_)[:160], verdict[1], line=call_.lineno, site=site_d)
+
     # ------------------------------------------------------------------ c
     lf = u.func("_check_linking_constraint")
     blocks = {}
@@ -366,6 +405,7 @@ def controls(pm, tier):
                 return None
             return {u.relpath: u.src.replace(find, repl, 1)}
         out.append({"name": name, "rule": rule, "apply": apply, "also": also})
+    mut("        for node in reacheable_nodes:\n            samples_to_explore.remove(node)\n", "        samples_to_explore.pop(0)\n", "C14-d", "only the start node leaves the worklist", also=())
     mut("        component = [unique_indices[node] for node in reacheable_nodes]\n        for i, j in itertools.combinations(component, r=2):",
         "        for i, j in itertools.combinations(reacheable_nodes, r=2):", "C14-a", "graph positions compared with sample ids")
     mut("                    gradient[idx0] += factor * (y_pred[idx0] - y_pred[idx1])\n                    gradient[idx1] += factor * (y_pred[idx1] - y_pred[idx0])\n            for (i, j) in must_link:",
